@@ -15,6 +15,29 @@ N_ARGS = 3
 N_ALLOCS = 3
 
 
+RESCALE = ("kernel.rescale %x {{input_zp = 0 : i32, output_zp = 0 : i32, multiplier = array<i32: 1140768826>, shift = array<i32: 48>, "
+           "max_int = 127 : i32, min_int = -128 : i32, double_round = true}} : ({i}) -> {o}")
+#: kind -> (accelerator, input element type, output element type, kernel text); which core runs it is NOT recorded here
+STREAM_KINDS = {
+    "xdma-add": ("snax_xdma", "i32", "i32", "kernel.add %x, %x : i32, i32 -> i32"),
+    "xdma-rescale-up": ("snax_xdma", "i8", "i32", RESCALE.format(i="i8", o="i32")),
+    "xdma-rescale-down": ("snax_xdma", "i32", "i8", RESCALE.format(i="i32", o="i8")),
+    "alu-add": ("snax_alu", "i32", "i32", "kernel.add %x, %x : i32, i32 -> i32"),
+}
+
+
+def stream_text(s):
+    acc, it, ot, kern = STREAM_KINDS[s["kind"]]
+    src, dst = ("%e0" if it == "i32" else "%f0"), ("%e1" if ot == "i32" else "%f1")
+    return (
+        f'"dart.operation"({src}, {dst}) <{{patterns = [affine_map<(d0) -> (d0)>, affine_map<(d0) -> (d0)>], accelerator = "{acc}", operandSegmentSizes = array<i32: 1, 1>}}> ({{\n'
+        f"^bb0(%si : !dart.stream<{it}>, %so : !dart.stream<{ot}>):\n"
+        f'  %sr = "dart.generic"(%si) ({{\n  ^bb1(%x : {it}):\n    %r = {kern}\n    dart.yield %r : {ot}\n  }}) : (!dart.stream<{it}>) -> !dart.stream<{ot}>\n'
+        f"  dart.yield %sr : !dart.stream<{ot}>\n"
+        f'}}) {{vtag = {s["tag"]} : i64}} : (memref<8x{it}, "L1">, memref<8x{ot}, "L1">) -> ()'
+    )
+
+
 VIEWS = {"%w0": ("%b0", 0), "%w1": ("%b0", 2), "%w2": ("%b1", 1)}
 TS1 = 'memref<2xi32, "L1">'
 
@@ -44,6 +67,7 @@ def default_profile(rng):
         "nested_loops": True,
         "l3_kernels": False,
         "views": False,
+        "streams": False,
     }
 
 
@@ -75,6 +99,9 @@ class BufGen:
         k = r.choices(kinds, w)[0]
         self.count += 1
         self.tag += 1
+        if p.get("streams") and k in ("copy", "gen") and r.random() < 0.4:
+            kind = r.choice(list(STREAM_KINDS))
+            return {"k": "stream", "kind": kind, "tag": self.tag}
         small = list(VIEWS) + ["%s0"]
         if p.get("views") and k in ("copy", "gen") and r.random() < 0.5:
             s, d = r.sample(small, 2)
@@ -107,7 +134,7 @@ class BufGen:
         return node
 
     def program(self):
-        ast = {"body": self.stmts(self.p["top_stmts"], 0, [], False), "views": bool(self.p.get("views"))}
+        ast = {"body": self.stmts(self.p["top_stmts"], 0, [], False), "views": bool(self.p.get("views")), "streams": bool(self.p.get("streams"))}
         if self.p.get("multiblock"):
             ast["blocks"] = [self.stmts(self.r.randint(1, 3), 0, [], False), self.stmts(self.r.randint(1, 3), 0, [], False)]
         return ast
@@ -142,6 +169,8 @@ def emit(ast) -> str:
                 e(ind, f'"memref.copy"({s["src"]}, {s["dst"]}) {{vtag = {s["tag"]} : i64}} : ({buf_type(s["src"])}, {buf_type(s["dst"])}) -> ()')
             elif k == "gen":
                 e(ind, generic_text(s["ins"], s["out"], s["tag"]))
+            elif k == "stream":
+                e(ind, stream_text(s))
             elif k == "sync":
                 e(ind, '"snax.cluster_sync_op"() : () -> ()')
             elif k == "op":
@@ -170,6 +199,9 @@ def emit(ast) -> str:
         e(2, f"%c{c} = arith.constant {c} : index")
     for i in range(N_ALLOCS):
         e(2, f"%b{i} = memref.alloc() {{vsite = {i} : i64}} : {T1}")
+    if ast.get("streams"):
+        for nm, ty in (("%e0", "i32"), ("%e1", "i32"), ("%f0", "i8"), ("%f1", "i8")):
+            e(2, f'{nm} = memref.alloc() {{vsite = {20 + ord(nm[1]) + int(nm[2])} : i64}} : memref<8x{ty}, "L1">')
     if ast.get("views"):
         for w, (b, off) in VIEWS.items():
             e(2, f"{w} = memref.subview {b}[{off}][2][1] : {T1} to {buf_type(w)}")
